@@ -30,6 +30,8 @@ RULE = (
     "signature was produced and verified by the reference, or (negative) the altered sum differs mod n"
 )
 ASSUMPTIONS = [
+    "an aggregate nonce R at infinity (sum of all effective nonces = 0) cannot be steered without a hash preimage and is not "
+    "claimed; nonce components that cancel across signers (k and n-k) are legal inputs and are exercised",
     "key sets are sets: duplicate keys (or a key together with its negation) are outside the statement",
     "a single-key aggregate is refused by the constructor (IndexError); recorded, vacuous",
     "nonce coefficient and partial signatures are internal to the library's draft: only the final signature, the "
@@ -56,6 +58,8 @@ GATES = {
     "honest-accepted": ["session:honest-accepted"],
     "trees": ["tree:k=%d:n=%d" % kn for kn in KN] + ["musig-tree:k=%d:n=%d" % kn for kn in KN if kn[0] >= 2],
     "library-nonces": ["nonces:generate_nonces", "nonces:driver"],
+    "degenerate-nonces": ["nonces:cancelling-first-components", "nonces:cancelling-second-components"],
+    "repository-tests-under-contracts": {"quick": [], "thorough": ["repotests:run"]},
 }
 
 _state = {"expect": None, "neg": None, "nonce_queue": None, "rng": None}
@@ -416,9 +420,19 @@ def run_session(ctx, spec):
             point_pairs.append((_lib_point(ec.mul(k1)), _lib_point(ec.mul(k2))))
     so = outcome(musig.nonce_sums, point_pairs)
     if so[0] != "ok":
+        ctx.violation("honest-session-fails:nonce_sums-raises", f"nonce_sums raised {so[1]}", {"op": "session", "session": spec})
         return
+    if spec.get("cancel") is not None:
+        ctx.count("nonces:cancelling-%s-components" % ("first" if spec["cancel"] == 0 else "second"))
     ro = outcome(musig.compute_r, so[1], msg)
     if ro[0] != "ok":
+        # every nonce is in [1, n-1]: the honest session must go through
+        degenerate = _pt(so[1][0]) is None or _pt(so[1][1]) is None
+        ctx.violation(
+            "honest-session-fails:nonce-sum-is-infinity" if degenerate else "honest-session-fails:compute_r-raises",
+            f"compute_r raised {ro[1]} for nonces in [1, n-1]" + (" whose first or second components sum to zero" if degenerate else ""),
+            {"op": "session", "session": spec},
+        )
         return
     r = ro[1]
     _state["expect"] = "valid"
@@ -428,6 +442,7 @@ def run_session(ctx, spec):
         ko = outcome(musig.compute_k, secret_pairs[i], so[1], msg)
         if ko[0] != "ok":
             _state["expect"] = None
+            ctx.violation("honest-session-fails:compute_k-raises", f"compute_k raised {ko[1]}", {"op": "session", "session": spec})
             return
         ks[i] = ko[1]
         po = outcome(musig.sign, privs[i], ko[1], r, msg, root)
@@ -482,6 +497,12 @@ def gen_session(rng, n, serial):
         k1 = rng.choice([1, ec.N - 1, 2]) if rng.random() < 0.05 else rng.randrange(1, ec.N)
         k2 = rng.choice([1, ec.N - 1, 2]) if rng.random() < 0.05 else rng.randrange(1, ec.N)
         nonces.append([k1, k2])
+    # degenerate but legal nonce choices: the first (or second) nonce components of all signers sum to zero
+    cancel = {5: 0, 1: 1}.get(serial % 8)
+    if cancel is not None:
+        rest = sum(p[cancel] for p in nonces[:-1]) % ec.N
+        if rest != 0:
+            nonces[-1][cancel] = ec.N - rest
     order = list(range(n))
     rng.shuffle(order)
     perms = [list(reversed(range(n)))]
@@ -494,8 +515,10 @@ def gen_session(rng, n, serial):
     for name in names[:3]:
         negs.append((name, rng.randrange(n), rng.getrandbits(256)))
     return {
-        "secrets": secrets, "signer_order": order, "nonces": nonces, "msg": rng.randbytes(32),
+        "secrets": secrets, "signer_order": order, "nonces": nonces,
+        "msg": {7: b"\x00" * 32, 11: b"\xff" * 32}.get(serial % 16) or rng.randbytes(32),
         "root": rng.randbytes(32) if serial % 2 else b"", "use_generate": serial % 3 == 0, "perms": perms, "negatives": negs,
+        "cancel": cancel,
     }
 
 
@@ -547,7 +570,10 @@ def run_tree(ctx, spec):
     nonce_iter = iter(spec["nonces"])
     to = outcome(TapRootMultiSig, points, k)
     if to[0] != "ok":
-        ctx.count("observed:TapRootMultiSig-refused:n=%d" % n)
+        if n >= 2 and 1 <= k <= n:
+            ctx.violation("tree-constructor-raises", f"TapRootMultiSig({n} keys, k={k}) raised {to[1]}", {"op": "tree", "tree": spec})
+        else:
+            ctx.count("observed:TapRootMultiSig-refused:n=%d" % n)
         return
     trm = to[1]
     internal = trm.default_internal_pubkey
@@ -678,9 +704,29 @@ def gen_tree(rng, k, n, tier, serial):
 
 # ---- shards ---------------------------------------------------------------------------------------------
 def shards(tier, seed):
-    n = 16
-    per = {"quick": 12, "thorough": 240}[tier]
-    return [{"name": "musig", "idx": i, "n": n, "per": per, "budget_s": 900 if tier == "quick" else 5400} for i in range(n)]
+    # 16 processes in both tiers: thorough = the repository's test module under the contracts + 15 workload shards
+    n = 16 if tier == "quick" else 15
+    per = {"quick": 12, "thorough": 250}[tier]
+    out = [{"name": "musig", "idx": i, "n": n, "per": per, "budget_s": 900 if tier == "quick" else 10800, "hard_timeout_s": 1500 if tier == "quick" else 14000} for i in range(n)]
+    if tier == "thorough":
+        out.insert(0, {"name": "repotests", "idx": 0, "n": 1, "budget_s": 10800, "hard_timeout_s": 14000, "modules": ["buidl.test.test_musig"]})
+    return out
+
+
+def _run_repo_tests(ctx, names):
+    """Thorough tier only: the repository's own test modules executed under the installed contracts
+    (an additional workload; a failing test is noted, never a verdict by itself)."""
+    import io
+    import unittest
+
+    from vmon.core import Quiet
+
+    suite = unittest.defaultTestLoader.loadTestsFromNames(names)
+    with Quiet():
+        res = unittest.TextTestRunner(stream=io.StringIO(), verbosity=0).run(suite)
+    ctx.note("repotests", {"modules": names, "run": res.testsRun, "failures": len(res.failures), "errors": len(res.errors), "skipped": len(res.skipped),
+                           "not-passing": [str(t[0]) for t in (res.failures + res.errors)][:12]})
+    ctx.count("repotests:run", res.testsRun)
 
 
 def run_shard(desc, ctx):
@@ -688,6 +734,9 @@ def run_shard(desc, ctx):
     rt.selfcheck()
     _state["rng"] = ctx.rng("entropy")
     install()
+    if desc["name"] == "repotests":
+        _run_repo_tests(ctx, desc["modules"])
+        return
     idx, per = desc["idx"], desc["per"]
     rng = ctx.rng()
     # k-of-n trees: every (k, n) pair is somebody's job; the two spare shards repeat the largest ones
